@@ -5,10 +5,17 @@ from decimal import Decimal as D
 from vlib import expr as X
 
 
-def build_dsl(spec, name="m"):
-    """Build a BPTK_Py Model from a spec with the real DSL API.  Returns (model, elements)."""
+def build_dsl(spec, name="m", late_runspecs=False):
+    """Build a BPTK_Py Model from a spec with the real DSL API.  Returns (model, elements).
+    late_runspecs: the model is created and its equations are defined under other run specs (earlier start, later stop,
+    coarser dt); the spec's run specs are set afterwards with Model.run_specs()."""
     from BPTK_Py import Model
     run = spec["run"]
+    if late_runspecs:
+        m = Model(starttime=float(run["start"]) - 2.0, stoptime=float(run["stop"]) + 3.0, dt=float(run["dt"]) * 2.0, name=name)
+        E = populate(m, spec)
+        m.run_specs(float(run["start"]), float(run["stop"]), float(run["dt"]))
+        return m, E
     m = Model(starttime=float(run["start"]), stoptime=float(run["stop"]), dt=float(run["dt"]), name=name)
     return m, populate(m, spec)
 
